@@ -76,23 +76,31 @@ CHECKS = {
               "DESIGN.md 4 (C10)"),
     "C11": _c("Zstd.tla states what each (frame class, capacity) pair demands; MC_Zstd checks the wrapper model against "
               "it; recorded calls of decompress_zstd around the per-file expanded size and on 8 kinds of non-frames are "
-              "validated against the same demands.",
-              "DESIGN.md 4 (C11)"),
+              "validated against the same demands; the files include ones that do not compress (several zstd blocks "
+              "long) and ones larger than their expanded form, the non-frames every kind of cut of the frame.",
+              "DESIGN.md 4 (C11), 16"),
     "C12": _c("CAbi.tla states the caller-visible contract (guards intact, status in {0,-1,-2}, result_size only on "
               "success and within capacity, undersized buffer negative, no unwinding); MC_CAbi checks a memory model of "
               "one call; recorded calls of both wrappers on canary-guarded buffers over capacities around the needed "
-              "size are validated against the same contract.",
-              "DESIGN.md 4 (C12)"),
+              "size are validated against the same contract - including call histories inside one process (frames "
+              "around damaged containers that make the library panic behind catch_unwind, refused calls, a reused input "
+              "buffer with other contents, then the good calls again: the demands on a call do not depend on earlier "
+              "calls), a file whose expanded form is exactly 128 MiB, and a file larger than its expanded form.",
+              "DESIGN.md 4 (C12), 16"),
     "C13": _c("IO.tla models recreated_zlib_chunks against an environment that fragments and fails I/O; TLC explores "
               "every schedule over small containers (prefix, Ok-is-complete, hard errors surface, fragmentation is "
               "harmless, termination); on real containers one fault of each kind is injected at every I/O call index "
-              "and every call sequence is validated by Trace_IO.",
+              "and every call sequence is validated by Trace_IO; one byte per call on a 256 KiB stack.",
               "DESIGN.md 4 (C13)"),
     "C14": _c("Concurrency.tla shows determinism under every interleaving when no mutable cell is shared (and finds "
               "the race when one is: negative self-test); a source inventory monitors that hypothesis; 16 threads "
               "released together call the public functions on shared and distinct inputs and every result is compared "
-              "by Trace_Conc with a sequential reference; a second process must reproduce the reference.",
-              "DESIGN.md 4 (C14)"),
+              "by Trace_Conc with a reference computed on a thread of its own; a second process must reproduce the "
+              "reference. The model also covers call sequences with a cell retained by the thread (second negative "
+              "configuration), and the recorded runs vary everything that is not an argument: history (long-lived "
+              "threads running every call after every other, the C wrappers on a reused input buffer after refused "
+              "calls), the address of the input modulo 8, the number of processors (one vs all), noisy neighbours.",
+              "DESIGN.md 4 (C14), 16"),
 }
 
 _NOT_YET = "check not built yet in this session (planned, see DESIGN.md 9)"
